@@ -33,6 +33,7 @@ from __future__ import annotations
 import dataclasses
 import enum
 import itertools
+import math
 import struct
 import uuid as _uuid
 from typing import Any, ClassVar, Dict, List, Optional, Sequence, Tuple
@@ -195,10 +196,11 @@ class Val:
     """trich/tpod = the *twin*: the same value with the key insertion order of every order-insensitive mapping inside it
     reversed (Template / Dataclass-pod / FlagSwitch / BitField dicts; never DictAdapter / MultiDict / Collection, where
     order is part of the value).  The twin must encode to the same bytes and read back equal to the canonical value."""
-    __slots__ = ("rich", "pod", "enc", "eof", "trich", "tpod")
+    __slots__ = ("rich", "pod", "enc", "eof", "trich", "tpod", "alt")
 
     def __init__(self, rich, pod, enc, eof=False, trich=None, tpod=None, twin_of: "Val" = None):
         self.rich, self.pod, self.enc, self.eof = rich, pod, enc, eof
+        self.alt = None   # extra acceptable encodings (only: a quantised-float zero whose two centre codes are interchangeable)
         if twin_of is not None:
             trich, tpod = twin_of.trich, twin_of.tpod
             self.trich, self.tpod = trich, tpod
@@ -635,10 +637,15 @@ def _full(d) -> bool:
 def domain(desc, cap: int = CAP) -> List[Val]:
     """Values of a *closed* descriptor (<= cap, every direct member value still occurring where possible)."""
     d = T(desc)
-    return _dom(d, []) if _full(d) else _thin(_dom(d, []), cap)
+    return _dom_all(d, []) if _full(d) else _thin(_dom_all(d, []), cap)
 
 
 def _dom(d, env) -> List[Val]:
+    """domain of a member as seen by its parent: only values with a single acceptable encoding."""
+    return _strict(_dom_all(d, env))
+
+
+def _dom_all(d, env) -> List[Val]:
     closed = _closed(d)
     if closed and d in _DOM_CACHE:
         return _DOM_CACHE[d]
@@ -648,6 +655,11 @@ def _dom(d, env) -> List[Val]:
     if closed:
         _DOM_CACHE[d] = vals
     return vals
+
+
+def _strict(vals: List[Val]) -> List[Val]:
+    """values with a single acceptable encoding (composite trees are built from these only)."""
+    return [v for v in vals if v.alt is None] if any(v.alt is not None for v in vals) else vals
 
 
 def _typed_payload(v: Val, ein: bool):
@@ -747,12 +759,22 @@ def _dom_raw(d, env) -> List[Val]:
             f = float(q - pmin) * step
             f *= upper - lower
             f += lower
-            if zm and abs(f) < max_error:
+            snapped = zm and abs(f) < max_error
+            if snapped:
                 f = -0.0 if f < 0.0 else 0.0
             key = struct.pack(">d", f)
             if key not in seen:
                 seen.add(key)
-                out.append(Val(f, f, _both(d[1], q)))
+                v = Val(f, f, _both(d[1], q))
+                if snapped:
+                    # reference quantiser for a signed zero (half-step nudge towards the sign).  Where it does not give back the
+                    # code the zero came from (midpoint of the range within one step of 0 but not 0) the signed-zero trick cannot
+                    # tell the two centre codes apart: the value is just "zero", either centre code is an acceptable encoding.
+                    z = (f + math.copysign((upper - lower) * step * 0.5, f) - lower) / (upper - lower) / step
+                    if int(round(z)) + pmin != q:
+                        centre = [c for c in PRIMS[d[1]][1] if c != q and abs(float(c - pmin) * step * (upper - lower) + lower) < max_error]
+                        v.alt = [_both(d[1], c) for c in centre]
+                out.append(v)
         return out
     if k in ("intenum", "intflag", "bitfield", "bfdc", "booladapter", "expr"):
         # (adapter leaves: wire-first over the primitive's alphabet -- or the complete 8-bit wire domain for "full" flag leaves)
